@@ -918,3 +918,24 @@ func IsFieldNamed(v ssa.Value, name string) bool {
 	}
 	return false
 }
+
+// ResolveLoad looks through a load of a local cell that is stored exactly once (go/ssa spills captured
+// variables to such cells): it returns the stored value; otherwise v itself.
+func ResolveLoad(v ssa.Value) ssa.Value {
+	for i := 0; i < 4; i++ {
+		u, ok := v.(*ssa.UnOp)
+		if !ok || u.Op != token.MUL {
+			return v
+		}
+		al, ok := u.X.(*ssa.Alloc)
+		if !ok {
+			return v
+		}
+		sts := storesTo(al)
+		if len(sts) != 1 {
+			return v
+		}
+		v = sts[0]
+	}
+	return v
+}
